@@ -816,7 +816,9 @@ def run(rep: Report, prog: Program, tier: str) -> None:
                 rep.fail(mk_finding(prog, PROP, "C19-STOPEVAL", stop_f, getattr(ex, "node", None), f"{what}: raises {ex.name}", construct=f"stop raises {ex.name}"))
                 continue
             except Unknown as ex:
-                raise AnalysisError(f"C19-STOPEVAL cannot evaluate {qn}.stop: {ex}")
+                # (a supplementary evaluation on a minimal stand-in object; the structural rules C19-STOP / C19-EVENTS decide the ordering for code this stand-in cannot run)
+                rep.ok("C19-STOPEVAL", f"{what}: not decided ({str(ex)[:60]})", nontrivial=False)
+                continue
             left = [t for (t, _e), ended in zip(tasks, combo) if not ended and "cancel " + t not in log]
             problems = []
             if left:
